@@ -173,23 +173,38 @@ Fixpoint digits_val (acc : Z) (x : str) : option Z :=
   end.
 
 (** Go [strconv.Atoi]: optional sign, at least one digit, base 10, int64 range. *)
+Definition atoi_body (sign : Z) (t : str) : option Z :=
+  match t with
+  | [] => None
+  | _ => match digits_val 0 t with
+         | Some v => let r := (sign * v)%Z in
+                     if ((- 2 ^ 63 <=? r) && (r <=? 2 ^ 63 - 1))%Z then Some r else None
+         | None => None
+         end
+  end.
+
 Definition atoi (x : str) : option Z :=
-  let body sign t :=
-    match t with
-    | [] => None
-    | _ => match digits_val 0 t with
-           | Some v => let r := (sign * v)%Z in
-                       if ((- 2 ^ 63 <=? r) && (r <=? 2 ^ 63 - 1))%Z then Some r else None
-           | None => None
-           end
-    end in
   match x with
   | [] => None
   | a :: t =>
-      if Ascii.eqb a "+"%char then body 1%Z t
-      else if Ascii.eqb a "-"%char then body (-1)%Z t
-      else body 1%Z x
+      if Ascii.eqb a "+"%char then atoi_body 1%Z t
+      else if Ascii.eqb a "-"%char then atoi_body (-1)%Z t
+      else atoi_body 1%Z x
   end.
+
+Lemma atoi_body_range sg t v : atoi_body sg t = Some v -> (- 2 ^ 63 <= v <= 2 ^ 63 - 1)%Z.
+Proof.
+  unfold atoi_body. destruct t; [discriminate|]. destruct (digits_val 0 (a :: t)); [|discriminate].
+  cbv zeta. destruct ((- 2 ^ 63 <=? sg * z)%Z && (sg * z <=? 2 ^ 63 - 1)%Z) eqn:E; [|discriminate].
+  intros H; inversion H; subst. apply andb_true_iff in E. lia.
+Qed.
+
+Lemma atoi_range x v : atoi x = Some v -> (- 2 ^ 63 <= v <= 2 ^ 63 - 1)%Z.
+Proof.
+  unfold atoi. destruct x as [|a t]; [discriminate|].
+  destruct (Ascii.eqb a "+"%char); [apply atoi_body_range|].
+  destruct (Ascii.eqb a "-"%char); apply atoi_body_range.
+Qed.
 
 Definition last_opt {A} (l : list A) : option A :=
   match rev l with [] => None | x :: _ => Some x end.
